@@ -33,8 +33,8 @@ func (in *Inst) modPathLocs(mi ModItem, pre *SpecEnv, fieldAt map[string][]strin
 			addObj(base.T, T)
 			return
 		}
-		if _, ok := e.W.ghosts[structKey(T)+"."+n.Sel.Name]; ok {
-			comp := "gf:" + structKey(T) + "." + n.Sel.Name
+		if gk, _, ok := e.W.ghostFieldKey(T, n.Sel.Name); ok {
+			comp := "gf:" + gk
 			fieldAt[comp] = append(fieldAt[comp], base.T)
 			return
 		}
